@@ -134,6 +134,7 @@ def main():
     # hangs are the most expensive to minimise (every candidate may cost the wall backstop): do them last
     ordered = sorted(by_sig.items(), key=lambda kv: '/no-result/' in kv[0])
     extra = []
+    dismissed = set()
     for sig, rs in ordered:
         r = min(rs, key=lambda x: x['n_ops'])
         if len(new_violations) >= 6 or (new_violations and time.time() > total_deadline):
@@ -152,6 +153,12 @@ def main():
                     r, prelude = x, pre
                     ops, tests, reproduced = core.minimise(world, r['leg'], r['cfg'], r['ops'], sig, budget_s=min_budget, prelude=prelude)
                     break
+        if not reproduced and '/no-result/timeout' in sig:
+            # a wall-clock backstop that fired once and does not fire again when the same trace is executed is the machine (an
+            # overloaded or stalled host), not the code under test: a genuine hang hangs again.  Reported, not counted.
+            print('NOTE: run %s/%d hit its wall-clock backstop once (%s) and completes normally when its trace is executed again: machine load, not counted' % (r['leg'], r['run_index'], sig))
+            dismissed.add(sig)
+            continue
         if not reproduced:
             print('HARNESS-ERROR: violation %s of run %s/%d does not reproduce from its own trace' % (sig, r['leg'], r['run_index']))
             return 2
@@ -207,7 +214,7 @@ def main():
     per_leg = collections.Counter(r['leg'] for r in res)
     ev = {
         'property_id': args.prop, 'tier': args.tier, 'seed': verif_seed, 'level': level,
-        'wall_s': round(wall_total, 2), 'violations': len(by_sig),
+        'wall_s': round(wall_total, 2), 'violations': len(set(by_sig) - dismissed),
         'coverage': {
             'evaluations': int(evals),
             'distinct_nontrivial': len(shapes),
@@ -234,7 +241,7 @@ def main():
             json.dump(ev, f, indent=1, sort_keys=True, default=str)
     print('%s %s: %d runs (%d skipped), %d evaluations, %d distinct non-trivial shapes, %.1fs, %d violation signatures, %d known'
           % (args.prop, args.tier, len(res), skipped, evals, len(shapes), wall_total, len(by_sig), len(known_seen)))
-    return 1 if by_sig else 0
+    return 1 if (set(by_sig) - dismissed) else 0
 
 
 if __name__ == '__main__':
